@@ -1,6 +1,6 @@
 #!/venv/bin/python
 """Generate the TLC configurations of the core spec (one family per property). Run from spec/core."""
-ALL = ["CreateGroup", "CreateObject", "AddData", "CreateWithUid", "Rename", "SetFlag", "SetVal", "SetMeta", "Move", "MoveSame", "AddToGroup",
+ALL = ["CreateGroup", "CreateObject", "AddData", "AddVisual", "CreateWithUid", "Rename", "SetFlag", "SetVal", "SetMeta", "Move", "MoveSame", "AddToGroup",
        "AddDataFails", "StripOpt", "SaveAs", "Helper", "Copy2", "Remove2", "ScrubData", "CreateDeferred", "PGWithUid",
        "RemoveFromGroup", "RemovePG", "RemoveViaWorkspace", "RemoveViaParent", "DropRef", "Collect", "Purge",
        "LookupDead", "Copy", "Close", "Open", "CallClosed"]
@@ -30,7 +30,7 @@ def minus(*drop):
 
 
 GC = ["DropRef", "Collect", "Purge", "LookupDead"]
-NEW = ["SetMeta", "MoveSame", "AddDataFails", "StripOpt", "SaveAs", "Helper", "Copy2", "Remove2", "ScrubData", "CreateDeferred", "PGWithUid"]
+NEW = ["AddVisual", "SetMeta", "MoveSame", "AddDataFails", "StripOpt", "SaveAs", "Helper", "Copy2", "Remove2", "ScrubData", "CreateDeferred", "PGWithUid"]
 BASE = minus("CreateWithUid", "CallClosed", *NEW)
 # --- C01: histories of create/assign/rename/move/copy/delete with close/re-open and GC points
 cfg("C01_quick", 1, 1, 1, 1, [a for a in BASE if a != "SetFlag"] + ["MoveSame", "CreateDeferred"], 6, names=("a",), vals=(1, 2))
@@ -65,7 +65,7 @@ cfg("C06x_quick", 1, 1, 1, 1, C06X, 8, names=("a",), vals=(1,))
 cfg("C06x_thorough", 2, 1, 2, 1, C06X + ["Close", "Open"], 6, names=("a",), vals=(1,))
 # --- C09: every single mutation applied to every reachable state; footprint; files with omitted optional attributes
 cfg("C09_quick", 1, 1, 1, 1, [a for a in BASE if a != "LookupDead"] + ["MoveSame", "StripOpt"], 6, names=("a", "b"), vals=(1, 2))
-cfg("C09_thorough", 2, 1, 2, 2, BASE + ["MoveSame", "StripOpt", "AddDataFails", "SetMeta"], 6, names=("a", "b"), vals=(1, 2))
+cfg("C09_thorough", 2, 1, 2, 2, BASE + ["MoveSame", "StripOpt", "AddDataFails", "SetMeta", "AddVisual"], 6, names=("a", "b"), vals=(1, 2))
 # --- C11: close / abort at every point (also after a failed operation), calls on a closed workspace, re-open,
 #          save_as, fetch_active_workspace re-opening in another mode
 C11A = ["CreateGroup", "CreateObject", "AddData", "SetVal", "Rename", "RemoveViaWorkspace", "RemoveViaParent", "Close", "Open",
@@ -76,6 +76,9 @@ cfg("C11_thorough", 2, 1, 2, 1, C11A + ["Move", "Copy", "AddToGroup", "Collect",
 C12A = ["CreateGroup", "CreateObject", "AddData", "AddToGroup", "Copy", "SetVal", "SetMeta", "Rename", "Close", "Open"]
 cfg("C12_quick", 1, 2, 2, 1, C12A, 5, names=("a", "b"), vals=(1, 2))
 cfg("C12_thorough", 3, 2, 4, 2, C12A + ["SetFlag", "Move"], 6, names=("a", "b"), vals=(1, 2))
+# visual parameters and metadata of copies (aliasing between copy and source)
+cfg("C12vp_quick", 1, 2, 2, 1, ["CreateObject", "AddVisual", "AddData", "Copy", "SetMeta", "RemoveViaWorkspace", "Close", "Open"], 6,
+    names=("a",), vals=(1, 2))
 C12X = ["CreateGroup", "CreateObject", "AddData", "AddToGroup", "Copy2", "Remove2", "SetVal", "Rename"]
 cfg("C12x_quick", 1, 1, 2, 1, C12X, 6, names=("a", "b"), vals=(1, 2))
 cfg("C12x_thorough", 2, 1, 2, 2, C12X + ["Close", "Open", "Copy"], 6, names=("a", "b"), vals=(1, 2))
